@@ -30,6 +30,16 @@ class _InstanceTimeout(BaseException):
 def _worker(spec):
     import signal
 
+    # die with the parent (a check killed by an outer timeout must not leave workers spinning)
+    try:
+        import ctypes
+
+        ctypes.CDLL("libc.so.6", use_errno=True).prctl(1, signal.SIGKILL)  # PR_SET_PDEATHSIG
+        if os.getppid() == 1:
+            os._exit(0)
+    except Exception:
+        pass
+
     # hard wall-clock limit per instance: pure-Python polynomial arithmetic has no other interruption point
     limit = int(spec.get("limits", {}).get("max_s", 900) * 1.5) + 120
 
